@@ -183,21 +183,7 @@ def run(R):
 
     disk_rules(R, "C01")
 
-    # (3b) the only way put_verified accepts a record *without* writing it is a cache hit with byte-identical content
-    pvb = R.body("C01.cache-shortcut", PUTV)
-    if pvb is not None:
-        prep(pvb)
-        g = cfg_of(pvb)
-        spawn = set(CallSink("tokio::task::spawn::spawn").blocks(pvb))
-        early = [b for b in RetSink("Ok").blocks(pvb) if b in g.reach((0,), avoid=spawn)]
-        if early:
-            vals = lambda b: Taint(b).closure({d for d, r, p in field_reads(b, "value")})
-            same = CmpGuard(vals, vals, "Eq", "cached.value == new.value")
-            hit = CallGuard([RS + "RecordCache::remove", RS + "RecordCache::get"], ("Some",), "cache holds the key")
-            R.gate("C01.cache-shortcut", pvb, BlockSink(lambda b, e=early: e, "Ok without a disk write"), [[same], [hit]],
-                   descr="put_verified skips the disk write only for a cached record with identical value")
-        else:
-            R.inst("C01.cache-shortcut", "K4 gate", "put_verified has no accepting path that skips the disk write", 0, True)
+    put_persist_rules(R, "C01")
 
     # (4) read gate
     get = R.body("C01.get", GET)
@@ -414,3 +400,25 @@ def remove_and_mark_rules(R, pfx="C01"):
         if not dels:
             R.viol(pfx + ".remove.file", "delete-missing", "the task spawned by remove does not delete the record file", rm, rm.lines[0])
         R.inst(pfx + ".remove.file", "K1 must-call", "spawned task deletes the record file", len(dels), bool(dels))
+
+
+def put_persist_rules(R, pfx="C01"):
+    """An accepted validated put is written to disk unless the very same bytes are already cached (shared with C07: an update of a
+    mutable record that is accepted must actually replace the stored version)."""
+    F = R.F
+    # (3b) the only way put_verified accepts a record *without* writing it is a cache hit with byte-identical content
+    pvb = R.body(pfx + ".cache-shortcut", PUTV)
+    if pvb is not None:
+        prep(pvb)
+        g = cfg_of(pvb)
+        spawn = set(CallSink("tokio::task::spawn::spawn").blocks(pvb))
+        early = [b for b in RetSink("Ok").blocks(pvb) if b in g.reach((0,), avoid=spawn)]
+        if early:
+            vals = lambda b: Taint(b).closure({d for d, r, p in field_reads(b, "value")})
+            same = CmpGuard(vals, vals, "Eq", "cached.value == new.value")
+            hit = CallGuard([RS + "RecordCache::remove", RS + "RecordCache::get"], ("Some",), "cache holds the key")
+            R.gate(pfx + ".cache-shortcut", pvb, BlockSink(lambda b, e=early: e, "Ok without a disk write"), [[same], [hit]],
+                   descr="put_verified skips the disk write only for a cached record with identical value")
+        else:
+            R.inst(pfx + ".cache-shortcut", "K4 gate", "put_verified has no accepting path that skips the disk write", 0, True)
+
